@@ -371,3 +371,38 @@ pub fn verif_var_declare(context: &mut GlobalDataLock, name: String, d: Data)
 {
     unimplemented!()
 }
+
+pub mod trusted_axioms {
+    use super::*;
+
+    /// A4: `String` hashes and compares consistently (vstd ships this axiom for the integer types only)
+    #[verifier::external_body]
+    pub broadcast proof fn axiom_string_key_model()
+        ensures
+            #[trigger] vstd::std_specs::hash::obeys_key_model::<String>(),
+    {
+    }
+}
+
+/// the text a value prints as (Display of DataArc): the key a map literal stores an entry under
+pub uninterp spec fn key_text(d: Data) -> Seq<char>;
+
+/// R19: `key_val.to_string()`
+#[verifier::external_body]
+pub fn verif_key_text(context: &GlobalDataLock, k: &DataArc) -> (r: String)
+    requires
+        context.cells().contains_key(k.cell()),
+    ensures
+        r@ == key_text(context.cells()[k.cell()]),
+{
+    unimplemented!()
+}
+
+/// R19: `HashMap::with_capacity(n)`
+#[verifier::external_body]
+pub fn verif_new_map(n: usize) -> (r: HashMap<String, DataArc>)
+    ensures
+        r@ == Map::<String, DataArc>::empty(),
+{
+    HashMap::with_capacity(n)
+}
